@@ -72,6 +72,16 @@ def run_case(ns, mon, case):
         rej = False
     except Reject:
         ref, rej = None, True
+    if case.get("n", 0) % 3 == 0 and not case.get("a", {}).get("second_forward") and not case.get("a", {}).get("history"):
+        # the same configuration was used a moment ago with the other dtype (mixed-precision code does this): nothing of that call may
+        # leak into this one (geometry caches, cached window views, ...)
+        other = np.dtype("float32") if dt == np.float64 else np.dtype("float64")
+        try:
+            with np.errstate(all="ignore"):
+                nncommon.forward(ns, case, [x.astype(other) if x.dtype.kind == "f" else x for x in xs], dtype=other)
+            counters["other_dtype_first"] = 1
+        except Exception:
+            pass
     try:
         with np.errstate(all="ignore"):
             ts, out = nncommon.forward(ns, case, xs, dtype=dt)
